@@ -1143,10 +1143,32 @@ func (s *caseState) checkFencingHistory(events []Event, logs map[string][]*proto
 			if op.InvSeq <= f.seq {
 				continue
 			}
-			// the node becomes leader again only through a later BecomeLeader
-			ledAgain := false
+			// the node becomes leader again only through a BecomeLeader it takes after the NewTerm. The order in which
+			// the node took two calls that overlap is not visible from outside (a duplicate NewTerm of the same term
+			// delivered late may be answered while the BecomeLeader of that term is already on its way: thorough tier,
+			// rapid seed 1475029): the fence binds only when every BecomeLeader to the node had completed before the
+			// NewTerm call started, or started after the read returned
+			start := f.seq
 			for _, e := range events {
-				if (e.Kind == "becomeleader.send" || e.Kind == "late.becomeleader") && e.To == op.Node && e.Seq > f.seq && e.Seq < op.RetSeq {
+				if (e.Kind == "newterm.send" || e.Kind == "late.newterm") && e.To == op.Node && e.Term == f.term && e.Seq < f.seq {
+					start = e.Seq
+				}
+			}
+			ledAgain := false
+			for i, e := range events {
+				if !((e.Kind == "becomeleader.send" || e.Kind == "late.becomeleader") && e.To == op.Node && e.Seq < op.RetSeq) {
+					continue
+				}
+				// where this call ended (ok / refused / fail); still running at the end of the history = overlaps
+				end := int64(1) << 62
+				for _, x := range events[i+1:] {
+					if (x.Kind == "becomeleader.ok" || x.Kind == "becomeleader.refused") && x.From == op.Node && x.Term == e.Term ||
+						x.Kind == "becomeleader.fail" && x.To == op.Node && x.Term == e.Term {
+						end = x.Seq
+						break
+					}
+				}
+				if end > start {
 					ledAgain = true
 				}
 			}
